@@ -30,7 +30,7 @@ ASSUMPTIONS = [
 
 
 def budget(tier):
-    return 1400 if tier == "quick" else 30000
+    return 8000 if tier == "quick" else 300000
 
 
 GFS = ["SB", "OA", "HD", "MO"]
@@ -378,8 +378,281 @@ def judge_clean(f, recs, st):
     return viols
 
 
+# ---------------------------------------------------------------------------------- damage
+WS_CHARS = " \t\n\r\x0b\x0c"
+
+
+def lex(text):
+    """Lexemes of the bracket language: ('L'|'R'|'W'|'T', string)."""
+    out = []
+    i, n = 0, len(text)
+    while i < n:
+        ch = text[i]
+        if ch == "(":
+            out.append(("L", ch))
+            i += 1
+        elif ch == ")":
+            out.append(("R", ch))
+            i += 1
+        else:
+            j = i
+            if ch in WS_CHARS:
+                while j < n and text[j] in WS_CHARS:
+                    j += 1
+                out.append(("W", text[i:j]))
+            else:
+                while j < n and text[j] not in WS_CHARS and text[j] not in "()":
+                    j += 1
+                out.append(("T", text[i:j]))
+            i = j
+    return out
+
+
+class Ill(Exception):
+    pass
+
+
+def recognise(text, emptypos=False):
+    """Independent recogniser of the bracket-group language (DESIGN.md Appendix A).
+    Returns a list of ('tree', sentence) | ('ill', reason) | ('unspecified', why); the list
+    ends at the first ill-formed or unspecified group."""
+    toks = lex(text)
+    pos = [0]
+    n = len(toks)
+
+    def peek():
+        return toks[pos[0]][0] if pos[0] < n else "EOF"
+
+    def take():
+        t = toks[pos[0]]
+        pos[0] += 1
+        return t
+
+    def skipw():
+        if peek() == "W":
+            pos[0] += 1
+            return True
+        return False
+
+    def after(label, words):
+        k = peek()
+        if k == "W":
+            take()
+            k = peek()
+            if k == "T":
+                word = take()[1]
+                skipw()
+                k = peek()
+                if k == "R":
+                    take()
+                    words.append([word, label, None, None, None])
+                    return len(words)
+                if k == "EOF":
+                    raise Ill("eof-in-group")
+                raise Ill("bracket-or-token-after-word")
+            if k == "L":
+                return [label, None, children(words)]
+            if k == "R":
+                raise Ill("label-without-content")
+            raise Ill("eof-in-group")
+        if k == "L":
+            return [label, None, children(words)]
+        if k == "R":
+            if emptypos:
+                take()
+                words.append([label, "EMPTY", None, None, None])
+                return len(words)
+            raise Ill("label-without-content")
+        raise Ill("eof-in-group")
+
+    def children(words):
+        kids = []
+        while True:
+            skipw()
+            k = peek()
+            if k == "L":
+                kids.append(node(words))
+            elif k == "R":
+                take()
+                return kids
+            elif k == "T":
+                raise Ill("token-after-closed-child")
+            else:
+                raise Ill("eof-in-group")
+
+    def node(words):
+        take()                        # L
+        skipw()
+        k = peek()
+        if k == "T":
+            return after(take()[1], words)
+        if k == "EOF":
+            raise Ill("eof-in-group")
+        raise Ill("bracket-where-label-expected")
+
+    out = []
+    while pos[0] < n:
+        if peek() != "L":
+            take()                    # ignorable between groups
+            continue
+        words = []
+        try:
+            take()
+            skipw()
+            k = peek()
+            if k == "T":
+                root = after(take()[1], words)
+            elif k == "L":
+                root = ["VROOT", None, children(words)]
+            elif k == "R":
+                raise Ill("empty-group")
+            else:
+                raise Ill("eof-in-group")
+        except Ill as e:
+            out.append(("ill", str(e)))
+            return out
+        if isinstance(root, int):
+            out.append(("unspecified", "top-level-preterminal"))
+            return out
+        out.append(("tree", {"sid": None, "tokens": words, "root": model.sort_children(root)}))
+    return out
+
+
+def decodable_prefix(data, enc):
+    """(text, complete) - the longest prefix of data that the incremental decoder of enc
+    (the one the text layer uses) accepts."""
+    import codecs
+    try:
+        return codecs.getincrementaldecoder(enc)().decode(data, True), True
+    except UnicodeError:
+        pass
+    dec = codecs.getincrementaldecoder(enc)()
+    out = []
+    for i in range(len(data)):
+        try:
+            out.append(dec.decode(data[i:i + 1]))
+        except UnicodeError:
+            break
+    return "".join(out), False
+
+
 def judge_damaged(f, recs, st):
-    return []
+    fmt, opts = f["fmt"], f["opts"]
+    st.fault("damage_" + f["damage"]["how"])
+    st.fault("damage")
+    data = cm.render_file(f)
+    clean = cm.render_file({k: v for k, v in f.items() if k != "damage"})
+    viols = []
+    if data == clean:
+        return judge_clean(f, recs, st)
+    text, complete = decodable_prefix(data, f["enc"])
+    text = text.replace("\r\n", "\n").replace("\r", "\n")     # universal newlines, as read
+    # observed
+    trees = []
+    raised = None
+    finished = False
+    for rec in recs:
+        if rec["op"] == "reader" and "exc" in rec:
+            raised = rec["exc"]
+            break
+        if rec["op"] != "next":
+            continue
+        if "exc" in rec:
+            raised = rec["exc"]
+            break
+        if rec["ok"] == "STOP":
+            finished = True
+            break
+        trees.append(rec["ok"])
+    if raised:
+        st.probe("reader_rejected_damaged_file")
+    # expected
+    if fmt == "discobrackets":
+        lines = text.split("\n")
+        partial = lines[-1]
+        whole = "\n".join(lines[:-1]) + ("\n" if len(lines) > 1 else "")
+        try:
+            exp = rc.dec_brackets(whole, disco=True)
+        except rc.DecodeError:
+            st.probe("damage_not_judged")
+            return viols
+        items = [("tree", s) for s in exp]
+        if not complete:
+            items.append(("undecodable", ""))
+        elif partial.strip() == "":
+            pass
+        elif "\t" not in partial:
+            items.append(("ill", "eof-in-group"))
+            st.probe("damage_inside_group")
+        else:
+            st.probe("damage_not_judged")
+            items.append(("unspecified", "sentence part cut"))
+    else:
+        items = recognise(text, "brackets_emptypos" in opts)
+        if not complete and (not items or items[-1][0] == "tree"):
+            items.append(("undecodable", ""))
+        elif not complete and items[-1][0] == "ill" and items[-1][1] == "eof-in-group":
+            items[-1] = ("undecodable", "")
+    kinds = [k for k, _ in items]
+    if "ill" in kinds:
+        st.probe("damage_inside_group")
+    elif kinds and all(k == "tree" for k in kinds):
+        st.probe("damaged_file_still_wellformed")
+        if len(kinds) != len(f["tb"]):
+            st.probe("damage_between_groups")
+    firstid = opts.get("brackets_firstid", 1)
+    st.check("damaged_files_judged")
+    for i, (kind, val) in enumerate(items):
+        if kind == "tree":
+            if i >= len(trees):
+                if raised and i < len(items) and any(k != "tree" for k in kinds[i:]):
+                    # error surfaced before all earlier trees were delivered (chunked decoding)
+                    if "undecodable" in kinds:
+                        return viols
+                viols.append(cm.viol("C01/damaged/%s/well-formed-group-lost" % fmt,
+                                     group=i, yielded=len(trees), raised=raised,
+                                     damage=f["damage"]))
+                return viols
+            probs = treeview.wellformed(trees[i])
+            if probs:
+                viols.append(cm.viol("C01/damaged/%s/ill-formed-tree/%s" % (fmt, probs[0]),
+                                     group=i, damage=f["damage"]))
+                return viols
+            got = treeview.to_sentence(trees[i])
+            exp = model.clone(val)
+            exp["sid"] = firstid + i
+            if "replace_parens" in opts:
+                for t in exp["tokens"]:
+                    t[0], t[1] = rc.map_parens(t[0]), rc.map_parens(t[1])
+                for c in model.constituents(exp["root"]):
+                    c[0] = rc.map_parens(c[0])
+            if "gf_split" in opts:
+                return viols
+            diff = compare(exp, got, fmt, fmt, {})
+            if diff:
+                viols.append(cm.viol("C01/damaged/%s/decoded-into-other-tree/%s" % (fmt, diff[0]),
+                                     group=i, diff=diff[1], damage=f["damage"]))
+                return viols
+        elif kind == "unspecified":
+            return viols
+        elif kind in ("ill", "undecodable"):
+            if len(trees) > i:
+                viols.append(cm.viol("C01/damaged/%s/ill-formed-group-decoded/%s"
+                                     % (fmt, val or kind), group=i, yielded=len(trees),
+                                     damage=f["damage"]))
+            elif not raised:
+                viols.append(cm.viol("C01/damaged/%s/ill-formed-group-not-rejected/%s"
+                                     % (fmt, val or kind), group=i, yielded=len(trees),
+                                     finished=finished, damage=f["damage"]))
+            return viols
+    # every group well formed: exactly these trees, normal termination
+    if raised:
+        viols.append(cm.viol("C01/damaged/%s/well-formed-file-rejected/%s" % (fmt, raised),
+                             groups=len(items), yielded=len(trees), damage=f["damage"]))
+    elif len(trees) != len(items):
+        viols.append(cm.viol("C01/damaged/%s/tree-count" % fmt, groups=len(items),
+                             yielded=len(trees), damage=f["damage"]))
+    return viols
 
 
 # ---------------------------------------------------------------------------------- shrink
